@@ -15,6 +15,7 @@ A6 == V6(8193, 3512, 1, 2, <<0, 0, 0, 0, 0, 0, 0, 1>>)   \* 2001:db8:1:2::1  sam
 A7 == V6(8193, 3512, 2, 1, <<0, 0, 0, 0, 0, 0, 0, 1>>)   \* 2001:db8:2:1::1  other /48
 
 mc_Addrs == {A1, A2, A3, A4, A5}
+mc_Addrs2 == {A1, A3}
 mc_AddrsAll == {A1, A2, A3, A4, A5, A6, A7}
 mc_Costs == {1, 2, 3}
 
